@@ -104,23 +104,12 @@ theorem upperModel_unicode :
     algOfEncrypt (upperModel [65,69,83,45,49,50,56,45,67,66,67,45,80,0xE2,0x84,0xAA,67,83,55]) = none := by
   decide
 
-/-! ## `D_aead_reject`: `decrypt` panics on a ciphertext the AEAD rejects -/
+/-! ## `D_aead_reject` (repaired): a ciphertext the AEAD rejects is now the error "Invalid input" -/
 
-/-- for every choice of primitives: an AEAD algorithm, key and IV of the right sizes, a ciphertext
-    the AEAD does not authenticate ⇒ `decrypt` panics (`.expect("key/iv sizes were already checked")`). -/
-theorem aead_reject_panics (P : Prims) (name key iv ct : Bytes) (a : Alg)
-    (ha : algOfDecrypt name = some a) (haead : a.isAead = true)
-    (hk : key.length = keyLen a) (hi : iv.length = ivLen a) (hrej : P.aeadDec a key iv ct = none) :
-    decrypt P name key iv ct = .panic :=
-  (decrypt_panic_iff P name key iv ct).mpr
-    ⟨a, ha, (checkSizes_none_iff a key iv).mpr ⟨hk, hi⟩, Or.inl ⟨haead, hrej⟩⟩
-
-/-- concrete: `decrypt!("", "aes-128-siv", <32-byte key>, <16-byte iv>)`. -/
+/-- concrete: `decrypt!("", "aes-128-siv", <32-byte key>, <16-byte iv>)` is an error, no longer a panic. -/
 theorem witness_aead_reject :
     decryptFn toyPrims [97,101,115,45,49,50,56,45,115,105,118] (List.replicate 32 0) (List.replicate 16 0) []
-      = .panic ∧
-    D_aead_reject toyPrims.upper [97,101,115,45,49,50,56,45,115,105,118] (List.replicate 32 0)
-      (List.replicate 16 0) = true := by
+      = .err .invalidInput := by
   decide
 
 /-! ## `D_v4mapped`: an IPv4-mapped IPv6 address comes back as the IPv4 address -/
